@@ -171,6 +171,13 @@ CHECKS = {
             {"entry": M + "/sources/env.HarnessC11Prefix", "pkgs": ENVP, "must_reach": ["c11-end", "c11-error"], "tiers": ["thorough"]},
         ],
     },
+    "C16T": {
+        "runs": [
+            {"entry": M + "/sources/env.HarnessC16EnvNamedScalars", "pkgs": ENVP + ["sort"], "must_reach": ["c16-types-end"]},
+            {"entry": M + "/sources/env.HarnessC16EnvNamedCollections", "pkgs": ENVP + ["sort"], "must_reach": ["c16-types-end"]},
+            {"entry": M + "/sources/env.HarnessC16EnvPointers", "pkgs": ENVP + ["sort"], "must_reach": ["c16-types-end"]},
+        ],
+    },
     "C14": {
         "runs": [
             {"entry": M + "/sources/env.HarnessC14Env", "pkgs": ENVP + ["sort"], "must_reach": ["c14-end", "c14-both-error"]},
